@@ -564,7 +564,7 @@ fn load_program_from_reader<R: Read + Seek>(r: &mut R, total_len: u64) -> MResul
 
   // 2. read features
   let mut features = Vec::new();
-  if header.feature_off != 0 && header.feature_off + 4 <= total_len.saturating_sub(4) {
+  if header.feature_off != 0 && header.feature_off.saturating_add(4) <= total_len.saturating_sub(4) {
     r.seek(SeekFrom::Start(header.feature_off))?;
     let c = r.read_u32::<LittleEndian>()? as usize;
     for _ in 0..c {
@@ -575,7 +575,7 @@ fn load_program_from_reader<R: Read + Seek>(r: &mut R, total_len: u64) -> MResul
 
   // 3. read types
   let mut types = TypeSection::new();
-  if header.types_off != 0 && header.types_off + 4 <= total_len.saturating_sub(4) {
+  if header.types_off != 0 && header.types_off.saturating_add(4) <= total_len.saturating_sub(4) {
     r.seek(SeekFrom::Start(header.types_off))?;
     let types_count = r.read_u32::<LittleEndian>()? as usize;
     for _ in 0..types_count {
